@@ -331,6 +331,7 @@ def check_case(case):
             res.label('flag-address.%s' % ('derived' if _FLAG.get('derived') else 'fallback'))
             before = list_files(sb.z)
             lpt_seen = 0
+            dropped = False
             for cls, ptext in probes:
                 if cls == 'EDIT':
                     # EDIT only acts when the interactive loop shows its prompt
@@ -392,9 +393,10 @@ def check_case(case):
                     v = s.get(var)
                     if isinstance(v, bytes) and scan(v, markers):
                         res.fail('disclosed.%s.variable' % cls, '%s\n%s = %r' % (where, var, v))
-                if not s.impl.program.protected:
+                if not s.impl.program.protected and not dropped:
+                    # early, specific signal; the disclosure probes that follow show the effect
+                    dropped = True
                     res.fail('protection-dropped.%s' % cls, where)
-                    return res
                 s.execute('CLS')
             # 3. only SAVE ,P works, and gives the original back
             o = s.execute('SAVE "OUT",P')
@@ -477,6 +479,12 @@ KILLS = [
     "machine.py peek_: guard removed -> not-refused.PEEK",
     "machine.py peek_: guard 'protected and run_mode' (inverted) -> not-refused.PEEK",
     "machine.py bsave_: guard removed -> not-refused.BSAVE, disclosed.BSAVE.file",
+    "machine.py bload_: guard removed (the seeded change) -> protection-dropped.BYPASS, "
+    "disclosed.BYPASS.console/screen, not-refused.LIST/SAVE/PEEK/EDIT after BLOAD \"FLAG0.BIN\"",
+    "machine.py bload_: guard only when no offset is given -> protection-dropped.BYPASS (BLOAD f,addr)",
+    "machine.py poke_: guard removed -> protection-dropped.BYPASS, disclosed.BYPASS.console/screen",
+    "machine.py poke_: guard only while DEF SEG is the data segment -> protection-dropped.BYPASS "
+    "(DEF SEG=ds-k:POKE flag+16k,0), not-refused.* in the probes that follow",
     "implementation.py chain_: 'protected and merge' test removed -> not-refused.CHAIN-MERGE "
     "(CHAIN MERGE of a file without lines; with lines store_line still refuses), "
     "disclosed.CHAIN-MERGE.console",
